@@ -18,7 +18,7 @@ theorem frameE_validate (c : Chan) (n info : Nat) (sv : SigFact) (pk : Bool)
     (h : (validate c n info sv pk).out.res.isErr = true) : (validate c n info sv pk).c = c := by
   revert h
   unfold validate fail
-  dsimp only
+  try dsimp only
   repeat' split
   all_goals intro h
   all_goals first
@@ -32,7 +32,7 @@ theorem validate_ok_cases (c : Chan) (n info : Nat) (sv : SigFact) (pk : Bool)
     (n = c.next ∧ c.closed = false ∧ (validate c n info sv pk).c = { c with nextInfo := some info }) := by
   revert h
   unfold validate fail
-  dsimp only
+  try dsimp only
   split
   · intro h; simp at h
   · split
@@ -318,7 +318,7 @@ theorem np_validate (c : Chan) (n info : Nat) (sv : SigFact) (pk : Bool)
     (h : (validate c n info sv pk).persisted = false) : (validate c n info sv pk).c = c := by
   revert h
   unfold validate fail
-  dsimp only
+  try dsimp only
   repeat' split
   all_goals intro h
   all_goals first
@@ -416,18 +416,6 @@ theorem np_needReady (c : Chan) (f : Chan → R)
   · intro _ _; rfl
   · rename_i hs; exact hf hs
 
-theorem validate_ok_persisted (c : Chan) (n info : Nat) (sv : SigFact) (pk : Bool)
-    (h : (validate c n info sv pk).out.res = .ok) : (validate c n info sv pk).persisted = true := by
-  revert h
-  unfold validate fail
-  dsimp only
-  repeat' split
-  all_goals intro h
-  all_goals first
-    | rfl
-    | (simp at h; done)
-    | (exfalso; rename_i hr; exact hr h)
-
 /-- **durability, channel level**: a reply that is not a panic and did not persist left the channel
     state unchanged -/
 theorem chanStep_np (F : Nat → Bytes → Bytes) (c : Chan) (op : Op)
@@ -458,9 +446,21 @@ theorem chanStep_np (F : Nat → Bytes → Bytes) (c : Chan) (op : Op)
     refine np_needReady c _ (fun _ => ?_) h hp
     unfold andThen
     split
-    · rename_i hok
-      intro h2
-      simp [validate_ok_persisted c n info sv pk hok] at h2
+    · rename_i hs hok
+      intro h2 hp2
+      dsimp only at h2 hp2 ⊢
+      simp only [Bool.or_eq_false_iff] at h2
+      have e1 := np_validate c n info sv pk h2.1
+      have h22 := h2.2
+      rw [e1] at h22 hp2 ⊢
+      revert h22 hp2
+      split
+      · intro hp2 h22; exact np_revoke c n hs h22 hp2
+      · split
+        · split
+          · intro _ _; rfl
+          · intro _ _; rfl
+        · intro _ h22; exact np_simple_activate c h22
     · intro h2 _
       exact np_validate c n info sv pk h2
   | hRevoke ver n po =>
